@@ -8,6 +8,7 @@ import Babylon.Future.LemmasK
 import Babylon.Future.LemmasH
 import Babylon.Future.LemmasR
 import Babylon.Future.Run
+import Babylon.Future.ViewLemmas
 
 namespace Babylon.Properties.C08
 open Babylon.Future Babylon.Gen.Future Babylon.Core
@@ -358,3 +359,93 @@ example : ∃ s, Reach s ∧ s.result 3 = some (.waited false true 0 5 10) :=
   ⟨(runEvs (State.init (some 3)) (latchEvs.take 10)).get latchDemo10_some,
     runEvs_reach (init_reach (some 3) (by simp)) _ (Option.some_get latchDemo10_some).symm, by decide⟩
 
+/-! ## Publication under the release/acquire view model (`Core/MemView.lean`, stale reads allowed)
+
+`Babylon/Future/ViewModel.lean` is the publication skeleton of `set_value` / `get` / `wait_for` /
+`ready` / `on_finish` over `MemView.Mem`: the setter writes the value storage (plain), seals `_head`
+(RMW, order `ordSeal`), publishes READY in `_futex` (RMW, order `ordFutexXchg`) and runs the detached
+callbacks; readers load `_futex` / `_head` at ANY timestamp their view admits, `fetch_or` the waiter
+flag, race the registration CAS against the seal (failure order `ordRegCasFail`), and finally read
+the value at any admissible timestamp.  All orders are the constants `gen/future.py` extracts. -/
+
+section ViewLevel
+open Babylon.Future.ViewM Babylon.Core.MemView
+
+/-- generated obligation: the orders in the current source give release on both publishing RMWs and
+acquire on every load / RMW / failed CAS through which a reader learns "ready" -/
+theorem gen_view_orders : genOrds.Good := by decide
+
+abbrev VReach (s : VState) : Prop := Reachable VInit (VStep genOrds) s
+
+/-- **publication, view level** (`fut_publication_view`): in every execution of the view model, whatever
+a `get()` / `wait_for()=true` caller, a `ready()=true` observer, an inline callback (registered after
+the seal or racing it: CAS lost to the sealing exchange) or a callback run by the setter reads from
+the value storage is the argument of `set_value` — never the unconstructed content. -/
+theorem fut_publication_view {s : VState} (hr : VReach s) (t x : Nat) (h : s.pc t = .done x) :
+    s.setv = some x :=
+  (VInv.reach gen_view_orders hr).done t x h
+
+/-- the same for any orders satisfying `Ords.Good` (what the proof really uses) -/
+theorem fut_publication_view_of_good (o : Ords) (hg : o.Good) {s : VState}
+    (hr : Reachable VInit (VStep o) s) (t x : Nat) (h : s.pc t = .done x) : s.setv = some x :=
+  (VInv.reach hg hr).done t x h
+
+/-- **happens-before form**: a thread that has observed READY / SEALED (or is the setter running its
+callbacks) has a view that contains the write of the value: its read of the storage cannot return
+timestamp 0 (the unconstructed content), and every read it can make returns the set value. -/
+theorem fut_publication_view_hb {s : VState} (hr : VReach s) (t : Nat) (h : s.pc t = .gR ∨ s.pc t = .s3) :
+    1 ≤ (s.m.tv t).cur.get Loc.value ∧ s.m.read t .value .rlx 0 = none ∧
+    ∀ ts m' x, s.m.read t .value .rlx ts = some (m', x) → s.setv = some x ∧ 1 ≤ ts := by
+  have hi := VInv.reach gen_view_orders hr
+  have hk : K s.m t := hi.know t (by rcases h with h | h <;> simp [h, knows])
+  refine ⟨hk, ?_, fun ts m' x hrd => ?_⟩
+  · cases hrd : s.m.read t .value .rlx 0 with
+    | none => rfl
+    | some p =>
+      obtain ⟨m', x⟩ := p
+      have := (L_readv hrd hi.minv hk).2.1
+      omega
+  · obtain ⟨h1, h2, _, _⟩ := L_readv hrd hi.minv hk
+    exact ⟨h1, h2⟩
+
+/-! ### concrete executions: positive runs and negative controls (evaluated by `decide`) -/
+
+/-- what thread `t` ends up with after the events `es` (storage initially holds 99) -/
+def viewRun (o : Ords) (es : List VEv) (t : Nat) : Option VPc := (runV o (VState.init 99) es).map (fun s => s.pc t)
+
+/-- set_value(7) completes publication; thread 1 calls get(), loads the READY message, reads the value -/
+def getEvs (valueTs : Nat) : List VEv :=
+  [.set 0 7, .act 0 0, .act 0 0, .act 0 0, .get 1 .get, .act 1 1, .act 1 valueTs]
+/-- thread 1 starts on_finish on the open list, the setter constructs and seals, thread 1's CAS loses to the
+sealing exchange (reads the SEALED message) and runs the callback inline -/
+def regRaceEvs (valueTs : Nat) : List VEv :=
+  [.reg 1 5, .act 1 0, .set 0 7, .act 0 0, .act 0 0, .act 1 1, .act 1 valueTs]
+
+-- with the orders of the source: the new value is read, the stale (unconstructed) one is not admissible
+example : viewRun genOrds (getEvs 1) 1 = some (.done 7) := by decide
+example : viewRun genOrds (getEvs 0) 1 = none := by decide
+example : viewRun genOrds (regRaceEvs 1) 1 = some (.done 7) := by decide
+example : viewRun genOrds (regRaceEvs 0) 1 = none := by decide
+/-- the positive run is a reachable state of the view model (non-vacuity of `fut_publication_view`) -/
+theorem viewDemo_some : (runV genOrds (VState.init 99) (regRaceEvs 1)).isSome = true := by decide
+example : ∃ s, VReach s ∧ s.pc 1 = .done 7 ∧ s.setv = some 7 :=
+  ⟨(runV genOrds (VState.init 99) (regRaceEvs 1)).get viewDemo_some,
+    runV_reach (Reachable.base ⟨99, rfl⟩) _ (Option.some_get viewDemo_some).symm, by decide, by decide⟩
+
+-- NEGATIVE CONTROLS: relax one publishing / observing operation and the conclusion fails — the reader
+-- can read the unconstructed storage (99) although it observed READY / SEALED
+/-- READY exchange relaxed: get() returns garbage -/
+example : viewRun { genOrds with xchg := .rlx } (getEvs 0) 1 = some (.done 99) := by decide
+/-- get()'s load relaxed -/
+example : viewRun { genOrds with getLoad := .rlx } (getEvs 0) 1 = some (.done 99) := by decide
+/-- seal relaxed: the callback whose registration lost to the seal sees garbage -/
+example : viewRun { genOrds with sealO := .rlx } (regRaceEvs 0) 1 = some (.done 99) := by decide
+/-- CAS failure order relaxed -/
+example : viewRun { genOrds with casFail := .rlx } (regRaceEvs 0) 1 = some (.done 99) := by decide
+/-- and such orders are rejected by the obligation -/
+example : ¬ ({ genOrds with xchg := .rlx } : Ords).Good := by decide
+example : ¬ ({ genOrds with sealO := .rlx } : Ords).Good := by decide
+
+end ViewLevel
+
+end Babylon.Properties.C08
